@@ -5,8 +5,7 @@ HERE = os.path.dirname(os.path.abspath(__file__))
 sys.path[:0] = [os.path.join(HERE, "vlib"), os.path.join(HERE, "props"), os.path.join(HERE, "mirsym")]
 
 NOT_APPLICABLE = {
-    'C05': 'needs real worker threads, crossbeam channels and OS scheduling: Kani has no threads and its compiler ICEs on crossbeam; mirsym explores only command-granularity orders of a modelled store (used for C10). The order-independence mechanisms it relies on are decided under C10 and C17. See DESIGN.md C05.',
-    'C06': 'deadlock freedom / refinement of a monitor + condvar + bounded-channel protocol across threads: no engine of this family reaches it on this code (no thread support in Kani; a hand-written protocol model would be a different technique). See DESIGN.md C06.',
+    'C06': 'deadlock freedom / refinement of a monitor + condvar + bounded-channel protocol across real threads: Kani has no threads and its compiler crashes on crossbeam; mirsym has no semantics for Condvar / thread wake-ups, and a hand-written protocol model would be a different technique. The simple trackers the batch trackers are to refine are decided one call at a time (C01-C04, C12); the store under command-granularity schedules under C05 / C10. See DESIGN.md C06.',
     'C18': 'the observable is CPython calling pyo3-generated FFI glue; neither engine can execute an interpreter boundary, and checking wrapper bodies in Rust would not establish what the property states. See DESIGN.md C18.',
 }
 PENDING = 'check under construction (not yet registered)'
